@@ -81,8 +81,53 @@ def check_program(job):
     return res
 
 
+
+# --------------------------------------------------------------------------- equal formulations
+# Pairs corpus/c01/equal/<name>.A.ink / <name>.B.ink that the language defines as the same program (a CONST is its
+# value, wherever it stands): both must compile and play identically along every choice path. Needs no reference
+# interpreter, so it reaches constructs outside Ink/Source.lean (CONST).
+def equal_forms(ctx):
+    from lib import play
+    import itertools
+    for a in sorted(glob.glob(os.path.join(common.ROOT, "corpus", "c01", "equal", "*.A.ink"))):
+        b = a[:-6] + ".B.ink"
+        name = os.path.basename(a)[:-6]
+        docs = {}
+        for tag, f in (("A", a), ("B", b)):
+            out = ctx.path(f"equal-{name}.{tag}.json")
+            st, detail = common.compile_ink(ctx, f, out)
+            if st != "ok":
+                ctx.violation("oracle", {"program": open(f).read(), "file": f, "compiler": st, "detail": str(detail)[:400],
+                                         "why": "a valid program (one of two formulations Ink defines as equal) does not compile"},
+                              signature={"kind": "equal-forms", "file": name, "what": "compile"})
+                docs = None
+                break
+            docs[tag] = out
+        if not docs:
+            continue
+        paths = [()] + [(i,) for i in range(3)] + list(itertools.product(range(3), range(3)))
+        for path in paths:
+            shown = {}
+            for tag in ("A", "B"):
+                ops = [["new", docs[tag]], ["seed", 7], ["maximally"], ["tags"], ["choices"]]
+                for c in path:
+                    ops += [["choose", c], ["maximally"], ["tags"], ["choices"]]
+                ops += [["warnings"], ["errors"]]
+                rs = play.run_rt_script(ops, ctx.scratch, tag=f"eq{tag}")
+                shown[tag] = [play.canon_result(o, r, lockstep=True) for o, r in zip(ops, rs)][2:]
+            ctx.case(f"equal:{name}:{path}", True)
+            ctx.count("equal_form_paths")
+            if shown["A"] != shown["B"]:
+                k = next((i for i, (x, y) in enumerate(zip(shown["A"], shown["B"])) if x != y), 0)
+                ctx.violation("oracle", {"program_A": open(a).read(), "program_B": open(b).read(), "choices": list(path),
+                                         "A_shows": shown["A"][k], "B_shows": shown["B"][k],
+                                         "why": "two formulations that Ink defines as equal play differently"},
+                              signature={"kind": "equal-forms", "file": name, "what": "play"})
+                break
+
 def run(ctx):
     quick = ctx.tier == "quick"
+    equal_forms(ctx)
     os.makedirs(os.path.join(common.CACHE, "c01tmp"), exist_ok=True)
     jobs = []
     for f in sorted(glob.glob(os.path.join(common.ROOT, "corpus", "c01", "*.json"))):
